@@ -82,8 +82,8 @@ class Translator:
                 e = z3.Bool(n.args[0]) if n.sort == S.BOOL else z3.Real(n.args[0])
                 self.vars[n] = e
                 if n.args[0] == S.PI_NAME:
-                    self.side.append(e > z3.RealVal("3.14159265358979"))
-                    self.side.append(e < z3.RealVal("3.14159265358980"))
+                    self.side.append(e > z3.RealVal("3.14159265358979323846"))
+                    self.side.append(e < z3.RealVal("3.14159265358979323847"))
             elif op == "lin":
                 terms = []
                 for a, c in n.args[0]:
@@ -121,6 +121,16 @@ class Translator:
                     if f in ("sin", "cos"):
                         self.side.append(e <= 1)
                         self.side.append(e >= -1)
+                    if f == "sin":
+                        pi = self.pi()
+                        # sin t <= t (t >= 0), sin t >= t (t <= 0); reflections sin(pi - t) = sin t, sin(t + pi) = -sin t
+                        self.side += [z3.Implies(a >= 0, e <= a), z3.Implies(a <= 0, e >= a),
+                                      z3.Implies(pi - a >= 0, e <= pi - a), z3.Implies(a + pi >= 0, e >= -(a + pi)),
+                                      z3.Implies(z3.And(a >= 0, a <= pi), e >= 0), z3.Implies(z3.And(a <= 0, a >= -pi), e <= 0)]
+                        # 1-Lipschitz to the zeros at -pi, 0, pi
+                        for z0 in (a, a - pi, a + pi):
+                            az = z3.If(z0 >= 0, z0, -z0)
+                            self.side += [e <= az, -e <= az]
                     if f == "exp":
                         self.side.append(e > 0)
                 self.apps.append((n, e))
@@ -142,6 +152,16 @@ class Translator:
         self._trig_shift_axioms()
         return memo[root.hid]
 
+    def pi(self):
+        e = self.memo.get(S.PI.hid)
+        if e is None:
+            e = z3.Real(S.PI_NAME)
+            self.memo[S.PI.hid] = e
+            self.vars[S.PI] = e
+            self.side.append(e > z3.RealVal("3.14159265358979323846"))
+            self.side.append(e < z3.RealVal("3.14159265358979323847"))
+        return e
+
     def _trig_shift_axioms(self):
         """instantiated axioms for pairs of sin/cos applications whose arguments differ by m*pi/2"""
         done = getattr(self, "_trig_done", 0)
@@ -153,6 +173,15 @@ class Translator:
             ni, ei = apps[i]
             for j in range(i):
                 nj, ej = apps[j]
+                fi_, fj_ = ni.args[0], nj.args[0]
+                if fi_ == fj_:
+                    # 1-Lipschitz and parity instances for this pair
+                    ai, aj = self.memo[ni.args[1].hid], self.memo[nj.args[1].hid]
+                    dd_ = ai - aj
+                    self.side.append(ei - ej <= z3.If(dd_ >= 0, dd_, -dd_))
+                    self.side.append(ej - ei <= z3.If(dd_ >= 0, dd_, -dd_))
+                    if (ni.args[1] + nj.args[1]) is S.ZERO:
+                        self.side.append(ei == (-ej if fi_ == "sin" else ej))
                 d = ni.args[1] - nj.args[1]
                 if d.op == "c" and d.args[0] == 0:
                     m2 = 0
